@@ -60,7 +60,8 @@ def build_asan(package):
     env = cargo_env()
     env["RUSTFLAGS"] = "-Zsanitizer=address"
     t0 = time.time()
-    r = subprocess.run(["cargo", "+nightly", "build", "--offline", "-q", "-p", package, "--features", "std,asan", "--target", ASAN_TRIPLE,
+    feats = ["--features", "std,asan"] if package == "vh-handles" else []
+    r = subprocess.run(["cargo", "+nightly", "build", "--offline", "-q", "-p", package] + feats + ["--target", ASAN_TRIPLE,
                         "--target-dir", tdir], cwd=HARNESS, env=env, stdout=subprocess.PIPE, stderr=subprocess.STDOUT, text=True)
     if r.returncode != 0:
         raise ToolError("ASAN build failed for %s:\n%s" % (package, r.stdout[-3000:]))
